@@ -270,7 +270,7 @@ def rule_queue_entity(ctx: Ctx) -> None:
         if none is True and dl:
             # an empty poll may be *answered* (so the driver knows its poll is no longer outstanding) but carries nothing
             kw0 = [{k.arg: unparse(k.value) for k in d_.keywords} for d_ in dl]
-            if len(dl) != 1 or kw0[0].get("payload") != "None" or kw0[0].get("target") != f"{evq}.requestor" or kw0[0].get("time") != "self.now":
+            if len(dl) != 1 or kw0[0].get("payload") not in ("None", item) or kw0[0].get("target") != f"{evq}.requestor" or kw0[0].get("time") != "self.now":
                 bad.append(f"an empty poll may only be answered with one empty delivery to the requestor (found {kw0})")
         if none is False:
             kw = {k.arg: unparse(k.value) for k in dl[0].keywords} if len(dl) == 1 else {}
